@@ -328,6 +328,19 @@ def run(ctx):
     R7 = "C15.R7"
     run.rule(R7, "the child index a scan restores covers every output found on chain, not only those missing in this run (an interrupted restore leaves outputs that a later scan finds present)", floor=1)
     scan_index_covers_all(ctx, R7)
+    R8 = "C15.R8"
+    run.rule(R8, "no key is handed out while a wallet restored from its seed still awaits its scan (init_status InitNeedsScanning): until then the wallet does not know which paths are in use", floor=1)
+    ncf = ctx.fn(nc)
+    if ncf is None:
+        run.error("C15.R8: LMDBBackend::next_child not found")
+    else:
+        gated = False
+        for g in [ncf] + [db.fns[k] for k in ctx.cg.callers(ncf.id) if k in db.fns and not non_production(k)]:
+            if any((t.get("f") or "").endswith("::init_status") for _b, t in g.calls()):
+                gated = True
+        run.instance(R8, {"fn": "LMDBBackend::next_child and its callers", "obligation": "the restore mark (init_status) is consulted before a key is derived"}, held=gated)
+        if not gated:
+            run.finding(Finding(R8, nc, "keys are derived without looking at the restore mark: a wallet restored from its seed that receives (or mines, builds an output, issues an invoice) before its first refresh starts again at index 0, a path that already has an output on chain", site=ncf.loc()))
     run.not_decided += ["uniqueness over all histories/restarts as such (R1-R3 are the conditions under which the counter discipline implies it)", "LMDB durability of the committed index"]
 
 def scan_index_covers_all(ctx, R7):
